@@ -198,7 +198,7 @@ def chains(ctx, r, n_chains):
         for si in range(r.randint(1, 6)):
             k = r.choice(
                 ["CreateCopy()", "CreateCopy(values)", "CreateCopy(unit)", "copy", "deepcopy", "pickle", "+fixed", "-array", "*number", "number-", "number/", "*nd", "nd*", "*nd1", "+fixed(other unit)",
-                 "ChangingIndex", "bad:+fixed", "bad:+array", "bad:*nd", "bad:CreateCopy(values)", "bad:array+", "*fixed", "/fixed", "Copy", "neg-index ChangingIndex"]
+                 "ChangingIndex", "bad:+fixed", "bad:+array", "bad:*nd", "bad:CreateCopy(values)", "bad:array+", "*fixed", "/fixed", "Copy", "neg-index ChangingIndex", "CheckValues(other size)"]
             )  # fmt: skip
             m = d + r.choice([-1, 1, 2]) if r.random() < 0.8 else r.choice([0, 1])
             m = max(0, m)
@@ -260,6 +260,21 @@ def chains(ctx, r, n_chains):
                     else:
                         amount = Scalar(cur.GetQuantity(), 5.0)
                     res = cur.ChangingIndex(i, amount, r.choice([True, False]))
+                elif k == "CheckValues(other size)":
+                    # the public size check, asked about another (valid) size and about a wrong one: a question only
+                    try:
+                        cur.CheckValues([0.0] * m if m >= 2 else [0.0, 0.0], m if m >= 2 else 2)
+                    except ValueError:
+                        pass
+                    p0 = sizes.check_fixedarray(cur)
+                    if p0 or cur.dimension != d:
+                        ctx.violation("CheckValues-changed-the-array-it-was-asked-on", {"start_dimension": d, "asked_about": m, "problem": p0 or "dimension is now %r" % (cur.dimension,), "steps": list(steps) + [k]})
+                        break
+                    try:
+                        cur.CheckValues([0.0] * (d + 1))
+                    except ValueError:
+                        pass
+                    res = cur.CreateCopy()
                 elif k == "bad:+fixed":
                     if m < 2:
                         continue
